@@ -1204,32 +1204,38 @@ impl<'a> TLVSequenceTLVIter<'a> {
     }
 
     fn try_next(&mut self) -> Result<Option<TLV<'a>>, Error> {
-        let current = self.seq.current()?;
-        if current.is_empty() {
+        if self.seq.0.is_empty() {
             return Ok(None);
         }
 
-        self.advance()?;
+        let control = self.seq.control()?;
 
-        Ok(Some(TLV::new(current.tag()?, current.value()?)))
-    }
+        if control.is_container_end() {
+            control.confirm_container_end()?;
 
-    fn advance(&mut self) -> Result<(), Error> {
-        if self.nesting > 0 || !self.seq.0.is_empty() && !self.seq.control()?.is_container_end() {
+            if self.nesting == 0 {
+                // The end marker of the container whose elements are being iterated
+                // (the sequence starts inside it): iteration ends there
+                return Ok(None);
+            }
+
+            // The end of a nested container is an item of the stream as well
+            self.nesting -= 1;
             self.seq = self.seq.next_enter()?;
 
-            let control = self.seq.control()?;
-
-            if control.is_container_start() {
-                self.nesting += 1;
-            } else if control.is_container_end() && self.nesting > 0 {
-                // At nesting 0 this is the end marker of the container whose elements
-                // are being iterated (the sequence starts inside it); iteration ends there
-                self.nesting -= 1;
-            }
+            return Ok(Some(TLV::end_container()));
         }
 
-        Ok(())
+        let current = TLVElement::new(self.seq.0);
+
+        if control.is_container_start() {
+            self.nesting += 1;
+        }
+
+        // Step into containers: their elements and their end marker follow as items
+        self.seq = self.seq.next_enter()?;
+
+        Ok(Some(TLV::new(current.tag()?, current.value()?)))
     }
 }
 
